@@ -1,3 +1,4 @@
+import XeofsModel.Frame
 import XeofsProofs.Lemmas.EofModel
 import XeofsProofs.Lemmas.Small
 import XeofsProofs.Lemmas.Rot
@@ -97,5 +98,28 @@ theorem src_cross_transform_forwards_normalized :
 theorem src_transform_writes_nothing :
     Gen.cpccaRotatorTransformWrites = [] ∧ Gen.eofRotatorTransformWrites = [] ∧ Gen.crossTransformWrites = [] ∧
     Gen.singleTransformWrites = [] := by decide
+
+/-- **structure level (S.Frame, tied by the `frame` correspondence)**: `transform` of the very labelled data the preprocessor was
+fitted on — after entirely missing samples and cells were dropped, for any number of sample dimensions — yields the fitted positional
+matrix: one row per valid sample, same order, same labels -/
+theorem frame_transform_training {α} (F : S.Frame α) (okS okF : S.Key → Bool) :
+    S.transformBy (F.sanitize okS okF).cols (F.sanitize okS okF).rows (F.sanitize okS okF).val = (F.sanitize okS okF).toMat :=
+  S.transformBy_training _
+
+/-- the rows of that matrix are exactly the samples that are not entirely missing, in their original order -/
+theorem frame_transform_rows {α} (F : S.Frame α) (okS okF : S.Key → Bool) :
+    (S.transformBy (F.sanitize okS okF).cols (F.sanitize okS okF).rows F.val).length = (F.rows.filter okS).length := by
+  simp [S.transformBy, S.Frame.sanitize]
+
+/-- non-vacuity: a 2-sample frame with one missing sample keeps exactly the other one -/
+example : S.transformBy [["a"]] (({ rows := [["t0"], ["t1"]], cols := [["a"]], val := fun s f => s ++ f } : S.Frame S.Key).sanitize
+    (fun s => s != ["t0"]) (fun _ => true)).rows (fun s f => s ++ f) = [[["t1", "a"]]] := by decide
+
+/-- source obligation: when entries of a stacked MultiIndex dimension were dropped in between (entirely missing samples), the index
+written back is cut down BY POSITION LABEL to the entries that are left — so data with several sample dimensions and a missing sample
+passes through `transform` and `inverse_transform` -/
+theorem src_multiindex_restore_after_drop :
+    Gen.multiIndexRestoreCuts = ["if X_inverse_transformed.sizes[dim] != original_index.sizes[dim]: positions = X_inverse_transformed.coords[dim].values original_index = original_index.isel({dim: positions})"] := by
+  decide +kernel
 
 end C04
